@@ -3,7 +3,9 @@
   (statements in full in `Lemmas/Corollaries*.lean`; restated here by `type_of%` so that they are
   counted and audited as obligations of C14).
 -/
-import PyProb.Lemmas.Corollaries
+import PyProb.Lemmas.CorollariesQF
+import PyProb.Lemmas.CorollariesCcf
+import PyProb.Lemmas.CorollariesExp
 
 namespace PyProb.C14
 open PyProb
